@@ -2,8 +2,12 @@
 every rule, and single-edit corruptions of them."""
 
 KEY_ATOMS = ['foo', 'bar', 'a', 'b', 'c', 'p', 'q', 'loves', 'x_1', 'aB9', 'call', 'once', 'findall', 'truex', 'failing']
+# words that mean something to other Prolog systems (declarations, module system, control): here they are ordinary
+# atoms, and a directive that starts with one of them is parsed like any other
+DIRECTIVE_WORDS = ['dynamic', 'discontiguous', 'multifile', 'initialization', 'module', 'use_module', 'ensure_loaded', 'op',
+                   'table', 'set_prolog_flag', 'include', 'meta_predicate', 'import', 'export']
 VARS = ['X', 'Y', 'Z', '_', '_G1', 'Tail', 'ATOM_NIL', 'True', '__x__']
-STRINGS = ["'hello world'", "'it\\'s'", "'a\nb'", "''", "'%not a comment'", "'é ü'", "'[]'", "'X'", "'\"'", "'foo'", "'1'"]
+STRINGS = ["'build/*'", "'*/tmp'", "'/* not a comment */'", "'hello world'", "'it\\'s'", "'a\nb'", "''", "'%not a comment'", "'é ü'", "'[]'", "'X'", "'\"'", "'foo'", "'1'"]
 NUMS = ['0', '1', '42', '007', '123456789012']
 BINOPS = ['=', '\\=', '==', '\\==', '<', '>', '=<', '>=']
 UNOPS = ['-', '+']
@@ -94,6 +98,13 @@ def predexpr(rng, d, wild=False):
 
 def clause(rng, wild=False):
     r = rng.random()
+    if r < 0.04:
+        # a directive in the style of other Prolog systems: keyword, then a term (what the grammar can express of it)
+        w = rng.choice(DIRECTIVE_WORDS)
+        k = rng.random()
+        if k < 0.5:
+            return [':-', w, '('] + term(rng, 1) + [')', '.']
+        return [':-', w, '(', rng.choice(KEY_ATOMS), '/', rng.choice(NUMS), ')', '.']
     if r < 0.08:
         return [':-'] + simplepred(rng, 2, wild) + ['.']
     if wild:
